@@ -28,7 +28,45 @@ type vC02Probe struct {
 	agi, agpi, agsi  []int
 	eff              vC02Name // effective (DNAME-rewritten) question name
 	effStr           string
-	fkey, fail, note string
+	note             string
+	fails            []vC02Failure
+}
+
+// one verdict of a probe that contradicts the ground truth
+type vC02Failure struct{ field, msg, fkey string }
+
+// only(field): a copy with every other verdict marked "not part of this case" (99)
+func (p *vC02Probe) only(field string) *vC02Probe {
+	q := *p
+	if field != "ne" {
+		q.ne = 99
+	}
+	if field != "nd" {
+		q.nd = 99
+	}
+	if field != "dl" {
+		q.dl = 99
+	}
+	if field != "ag" {
+		q.ag, q.agp, q.ags, q.agi, q.agpi, q.agsi = 99, 99, 99, nil, nil, nil
+	}
+	return &q
+}
+
+// without(field): a copy with that verdict masked
+func (p *vC02Probe) without(field string) *vC02Probe {
+	q := *p
+	switch field {
+	case "ne":
+		q.ne = 99
+	case "nd":
+		q.nd = 99
+	case "dl":
+		q.dl = 99
+	case "ag":
+		q.ag, q.agp, q.ags, q.agi, q.agpi, q.agsi = 99, 99, 99, nil, nil, nil
+	}
+	return &q
 }
 
 func (p *vC02Probe) coq() string {
@@ -164,6 +202,16 @@ func TestVerifC02Nsec(t *testing.T) {
 			return x
 		}
 		a, b := mk(), mk()
+		if r.Intn(8) == 0 && len(b) > 0 {
+			// a label that merely ends with the text of b's first label after a literal dot:
+			// "x\.b.c." is not below "b.c."
+			l := append(append(g.poolLabel(), '.'), b[0]...)
+			a = vC02Child(l, b[1:])
+			if r.Intn(3) == 0 {
+				l = append(append(g.poolLabel(), '\\', '.'), b[0]...)
+				a = vC02Child(l, b[1:])
+			}
+		}
 		sa, sb := vC02Pres(a), vC02Pres(b)
 		cmp := dnsname.CanonicalCompare(sa, sb)
 		if cmp < 0 {
@@ -193,6 +241,7 @@ func TestVerifC02Nsec(t *testing.T) {
 	}
 
 	// ---- NSEC verifiers
+	vC02Witnesses(tr, g)
 	for c := 0; c < n; c++ {
 		g.newPool(r.Intn(3) == 0)
 		var apex vC02Name
@@ -205,12 +254,52 @@ func TestVerifC02Nsec(t *testing.T) {
 			apex = vC02Name{g.poolLabel(), g.poolLabel()}
 		}
 		z := g.genZone(apex, 1+r.Intn(9))
-		vC02NsecCase(tr, g, z)
+		vC02NsecCase(tr, g, z, nil)
 	}
 }
 
+type vC02FixedProbe struct {
+	q     vC02Name
+	qtype uint16
+}
+
+func vC02N(labels ...string) vC02Name {
+	var n vC02Name
+	for _, l := range labels {
+		n = append(n, []byte(l))
+	}
+	return n
+}
+
+func vC02MkZone(apex vC02Name, nodes ...vC02Node) *vC02Zone {
+	z := &vC02Zone{apex: apex, nodes: nodes}
+	z.index()
+	return z
+}
+
+// the witnesses of the Coq refutation theorems (Proofs_NsecTop.v), replayed on the real code first
+func vC02Witnesses(tr *vC02Trace, g *vC02Gen) {
+	apexT := []uint16{2, 6, 46, 47, 48}
+	plain := []uint16{1, 46, 47}
+	deleg := []uint16{2, 46, 47}
+	e := vC02N("e")
+	// w_zone_ent: only a.b.e. below b.e.
+	vC02NsecCase(tr, g, vC02MkZone(e, vC02Node{e, apexT}, vC02Node{vC02N("a", "b", "e"), plain}),
+		[]vC02FixedProbe{{vC02N("b", "e"), 1}, {vC02N("c", "e"), 1}})
+	// w_zone_cut: delegation s.e.; x.s.e. is below it; s.e. A is the child's
+	vC02NsecCase(tr, g, vC02MkZone(e, vC02Node{e, apexT}, vC02Node{vC02N("s", "e"), deleg}, vC02Node{vC02N("z", "e"), plain}),
+		[]vC02FixedProbe{{vC02N("x", "s", "e"), 1}, {vC02N("s", "e"), 1}, {vC02N("s", "e"), 43}, {vC02N("t", "e"), 1}})
+	// w_zone_went: the wildcard *.e. is an empty non-terminal
+	vC02NsecCase(tr, g, vC02MkZone(e, vC02Node{e, apexT}, vC02Node{vC02N("a", "*", "e"), plain}),
+		[]vC02FixedProbe{{vC02N("x", "e"), 1}})
+	// root zone owning a wildcard
+	root := vC02Name{}
+	vC02NsecCase(tr, g, vC02MkZone(root, vC02Node{root, apexT}, vC02Node{vC02N("*"), plain}, vC02Node{vC02N("com"), deleg}),
+		[]vC02FixedProbe{{vC02N("x"), 1}, {vC02N("x"), 28}})
+}
+
 // one zone -> one record set -> several probes
-func vC02NsecCase(tr *vC02Trace, g *vC02Gen, z *vC02Zone) {
+func vC02NsecCase(tr *vC02Trace, g *vC02Gen, z *vC02Zone, fixed []vC02FixedProbe) {
 	r := g.r
 	chain := z.nsecChain()
 	cands := g.candidates(z)
@@ -237,10 +326,14 @@ func vC02NsecCase(tr *vC02Trace, g *vC02Gen, z *vC02Zone) {
 	default:
 		kind = "empty"
 	}
+	if fixed != nil {
+		kind = "witness"
+		recs = append([]vC02Rec(nil), chain...)
+	}
 	// pollution
 	var child *vC02Zone
 	polluted := ""
-	if r.Intn(100) < 35 {
+	if fixed == nil && r.Intn(100) < 35 {
 		switch r.Intn(8) {
 		case 0: // records of a sibling zone
 			if len(z.apex) > 0 {
@@ -332,7 +425,7 @@ func vC02NsecCase(tr *vC02Trace, g *vC02Gen, z *vC02Zone) {
 	}
 	rrs = vC02RoundTrip(rrs)
 	signer := z.apex
-	if r.Intn(5) == 0 {
+	if fixed == nil && r.Intn(5) == 0 {
 		signer = vC02UpperSome(r, signer)
 	}
 	signerStr := vC02Pres(signer)
@@ -388,16 +481,31 @@ func vC02NsecCase(tr *vC02Trace, g *vC02Gen, z *vC02Zone) {
 	}
 
 	nprobes := 4 + r.Intn(4)
+	if fixed != nil {
+		nprobes = len(fixed)
+	}
 	var probes []*vC02Probe
 	for i := 0; i < nprobes; i++ {
 		p := &vC02Probe{}
-		p.q = cands[r.Intn(len(cands))]
-		if r.Intn(6) == 0 {
-			p.q = vC02UpperSome(r, p.q)
+		if fixed != nil {
+			p.q, p.qtype, p.qclass = fixed[i].q, fixed[i].qtype, 1
+		} else {
+			p.q = cands[r.Intn(len(cands))]
+			if len(recs) > 0 && r.Intn(5) == 0 { // interval end points of the records actually supplied
+				rc := recs[r.Intn(len(recs))]
+				if r.Intn(2) == 0 {
+					p.q = rc.next
+				} else {
+					p.q = rc.owner
+				}
+			}
+			if r.Intn(6) == 0 {
+				p.q = vC02UpperSome(r, p.q)
+			}
+			p.qtype = g.qtypeFor(z, p.q)
+			p.qclass = g.qclass()
 		}
-		p.qtype = g.qtypeFor(z, p.q)
-		p.qclass = g.qclass()
-		if r.Intn(12) == 0 && len(p.q) > 0 {
+		if fixed == nil && r.Intn(12) == 0 && len(p.q) > 0 {
 			var o vC02Name
 			switch r.Intn(4) {
 			case 0:
@@ -459,54 +567,68 @@ func vC02NsecCase(tr *vC02Trace, g *vC02Gen, z *vC02Zone) {
 			}
 		}
 
-		// ---- ground truth
+		// ---- ground truth, verdict by verdict
 		if tz, ok := truth(p.eff); ok {
 			how := z.existsHow(p.eff)
 			ndTrue := z.nodataTrue(p.eff, p.qtype)
 			p.note = fmt.Sprintf("[truth: exists=%q nodata=%v]", how, ndTrue)
-			if exactJudged {
-				tz := z
-				if p.ne == 0 && how != "" {
-					p.fail = fmt.Sprintf("VerifyNameErrorNSEC accepted NXDOMAIN for %s which exists (%s)", p.effStr, how)
-					switch how {
-					case "ent":
-						p.fkey = "nsec-nxdomain-ent"
-					case "below-cut":
-						p.fkey = "nsec-nxdomain-below-cut"
-					case "wildcard-ent":
-						p.fkey = "nsec-nxdomain-wildcard-ent"
-					case "wildcard":
-						if ce, ok := tz.closestEncloser(p.eff); ok && len(ce) == 0 {
-							p.fkey = "nsec-nxdomain-root-wildcard"
-						}
-					}
-				} else if p.nd == 0 && !ndTrue {
-					p.fail = fmt.Sprintf("VerifyNODATANSEC accepted NODATA for %s %s which is not true of the zone", p.effStr, dns.TypeToString[p.qtype])
-					if nd := tz.owner(p.eff); nd != nil && tz.belowCut(p.eff) == nil && p.qtype != dns.TypeDS &&
-						vC02Has(nd.types, dns.TypeNS) && !vC02Has(nd.types, dns.TypeSOA) &&
-						!vC02Has(nd.types, p.qtype) && !vC02Has(nd.types, dns.TypeCNAME) {
-						p.fkey = "nsec-nodata-at-delegation"
-					}
-				} else if p.dl == 0 && tz == z && !z.insecureDelegation(p.q) {
-					p.fail = fmt.Sprintf("VerifyDelegationNSEC accepted %s as an insecure delegation", qs)
+			// A verdict on an input of a known finding's class travels alone, tagged with the
+			// finding's key (whether or not it fails, judged or not), so the finding tolerates
+			// nothing but that verdict on that class of input.
+			neKey := ""
+			switch how {
+			case "ent":
+				neKey = "nsec-nxdomain-ent"
+			case "below-cut":
+				neKey = "nsec-nxdomain-below-cut"
+			case "wildcard-ent":
+				neKey = "nsec-nxdomain-wildcard-ent"
+			case "wildcard", "":
+				if ce, ok := z.closestEncloser(p.eff); ok && len(ce) == 0 && z.owner(p.eff) == nil {
+					neKey = "nsec-nxdomain-root-wildcard" // closest encloser is the root: wildcard step skipped
 				}
 			}
-			if aggrJudged && p.fail == "" {
+			ndKey := ""
+			if nd := z.owner(p.eff); nd != nil && z.belowCut(p.eff) == nil && p.qtype != dns.TypeDS &&
+				vC02Has(nd.types, dns.TypeNS) && !vC02Has(nd.types, dns.TypeSOA) &&
+				!vC02Has(nd.types, p.qtype) && !vC02Has(nd.types, dns.TypeCNAME) {
+				ndKey = "nsec-nodata-at-delegation"
+			}
+			if exactJudged && p.ne == 0 && how != "" {
+				p.fails = append(p.fails, vC02Failure{field: "ne", fkey: neKey,
+					msg: fmt.Sprintf("VerifyNameErrorNSEC accepted NXDOMAIN for %s which exists (%s)", p.effStr, how)})
+			} else if neKey != "" {
+				p.fails = append(p.fails, vC02Failure{field: "ne", fkey: neKey})
+			}
+			if exactJudged && p.nd == 0 && !ndTrue {
+				p.fails = append(p.fails, vC02Failure{field: "nd", fkey: ndKey,
+					msg: fmt.Sprintf("VerifyNODATANSEC accepted NODATA for %s %s which is not true of the zone", p.effStr, dns.TypeToString[p.qtype])})
+			} else if ndKey != "" {
+				p.fails = append(p.fails, vC02Failure{field: "nd", fkey: ndKey})
+			}
+			if exactJudged {
+				if p.dl == 0 && vC02Sub(p.q, z.apex) && !z.insecureDelegation(p.q) {
+					p.fails = append(p.fails, vC02Failure{field: "dl", msg: fmt.Sprintf("VerifyDelegationNSEC accepted %s as an insecure delegation", qs)})
+				}
+			}
+			if aggrJudged {
 				how, ndTrue = tz.existsHow(p.eff), tz.nodataTrue(p.eff, p.qtype)
 				for _, o := range []struct {
 					code int
 					name string
 				}{{p.ag, "EvaluateAggressiveNSEC"}, {p.agp, "EvaluateAggressiveNSECPrepared"}, {p.ags, "EvaluateAggressiveNSECSet"}} {
 					if o.code == 13 && (how != "" || p.qclass != 1) {
-						p.fail = fmt.Sprintf("%s synthesised NXDOMAIN for %s which exists (%s) / class %d", o.name, p.effStr, how, p.qclass)
+						p.fails = append(p.fails, vC02Failure{field: "ag", msg: fmt.Sprintf("%s synthesised NXDOMAIN for %s which exists (%s) / class %d", o.name, p.effStr, how, p.qclass)})
+						break
 					} else if o.code == 10 && (!ndTrue || p.qclass != 1) {
-						p.fail = fmt.Sprintf("%s synthesised NODATA for %s %s which is not true of the zone", o.name, p.effStr, dns.TypeToString[p.qtype])
+						p.fails = append(p.fails, vC02Failure{field: "ag", msg: fmt.Sprintf("%s synthesised NODATA for %s %s which is not true of the zone", o.name, p.effStr, dns.TypeToString[p.qtype])})
+						break
 					}
 				}
 			}
 		}
-		if p.ag != p.agp && p.fail == "" {
-			p.fail = "EvaluateAggressiveNSEC and EvaluateAggressiveNSECPrepared disagree"
+		if p.ag != p.agp || fmt.Sprint(p.agi) != fmt.Sprint(p.agpi) {
+			p.fails = append(p.fails, vC02Failure{field: "ag", msg: "EvaluateAggressiveNSEC and EvaluateAggressiveNSECPrepared disagree"})
 		}
 		probes = append(probes, p)
 	}
@@ -547,12 +669,24 @@ func vC02NsecCase(tr *vC02Trace, g *vC02Gen, z *vC02Zone) {
 		}
 		tr.emit(m)
 	}
+	// a verdict that reproduces a listed finding travels alone with its key, so that it can never
+	// hide another failure on the same probe
 	var group []*vC02Probe
 	for _, p := range probes {
-		if p.fail != "" {
-			emit([]*vC02Probe{p}, p.fkey, p.fail)
+		rest := p
+		unlisted := ""
+		for _, f := range p.fails {
+			if f.fkey != "" {
+				emit([]*vC02Probe{p.only(f.field)}, f.fkey, f.msg)
+				rest = rest.without(f.field)
+			} else if unlisted == "" {
+				unlisted = f.msg
+			}
+		}
+		if unlisted != "" {
+			emit([]*vC02Probe{rest}, "", unlisted)
 		} else {
-			group = append(group, p)
+			group = append(group, rest)
 		}
 	}
 	if len(group) > 0 {
